@@ -14,6 +14,7 @@ CHECKS = {
     "C06": {"pkg": "verifx/c05", "run": "TestC06", "harness": EXPORTS2, "level": "model_checking", "quick": {"budget_s": 150}, "thorough": {"budget_s": 3000}},
     "C09": {"pkg": "verifx/c09", "run": "TestC09", "harness": EXPORTS2, "level": "model_checking", "quick": {"budget_s": 200}, "thorough": {"budget_s": 3000}},
     "C20": {"pkg": "verifx/c20", "run": "TestC20", "harness": ["client"], "level": "model_checking"},
+    "C07": {"pkg": "verifx/c07", "run": "TestC07", "harness": EXPORTS2, "level": "fault_enumeration", "thorough": {"budget_s": 2400}},
     "C08": {"pkg": "verifx/c08", "run": "TestC08", "harness": EXPORTS2, "level": "fault_enumeration"},
     "C11": {"pkg": "verifx/c11", "run": "TestC11", "harness": EXPORTS2, "level": "exploration"},
     "C12": {"pkg": "verifx/c12", "run": "TestC12", "harness": EXPORTS, "level": "exploration"},
